@@ -493,6 +493,15 @@ func buildUpdateEvents(dir string, graph *Graph, id string, task *Task, updates 
 		if !isEpic(parent) {
 			return nil, fmt.Errorf("task %s is not an epic", epicID)
 		}
+		// Under the new epic the task inherits that epic's dependencies (and tasks of dependent epics
+		// start waiting for it): the move must not close a waits-for cycle.
+		previous := task.EpicID
+		task.EpicID = epicID
+		cyclic := hasEffectiveCycle(graph)
+		task.EpicID = previous
+		if cyclic {
+			return nil, errors.New("epic assignment would create a dependency cycle")
+		}
 	}
 
 	// Build events using pure function, passing I/O-dependent body resolver
